@@ -172,7 +172,7 @@ pub fn run(ctx: &Ctx, out: &mut CaseOut) {
                                     let ambig = |s: &Option<Solution<I>>| s.as_ref().map_or(false, |s| s.is_ambig());
                                     let sig = if is_slg && requeued && ((trivial(&a) && ambig(fj)) || (trivial(fj) && ambig(&a))) {
                                         Some("slg:trivial-answer-green-cut-order")
-                                    } else if is_slg && a.is_none() && fj.is_some() && slg_stale_table(&mut slg_s) {
+                                    } else if is_slg && a.is_none() && fj.is_some() && slg_stale_table(&mut slg_s, &pj.goal) {
                                         // F11: the tables the crashed solve left behind are read by the retry in another order
                                         Some("slg:stale-delayed-answer-table")
                                     } else if is_slg && requeued {
